@@ -111,9 +111,9 @@ Fixpoint ssize (l : list welem) : nat := match l with [] => O | x :: r => (esize
 (* ------------------------------------------------------------------ *)
 (* the head of a written class statement *)
 
-Lemma class_head_written key name vs ws X :
+Lemma class_head_written_g (tmpl : bool) key name vs ws X :
   class_key key -> forallb access_ok ws = true -> (match vs with f :: _ => f = true | [] => True end) ->
-  class_stmt_head false false (ktok key :: mkTk T_NAME name :: vs_toks vs ++ bases_toks ws ++ ktok LBRACE :: X)
+  class_stmt_head false tmpl (ktok key :: mkTk T_NAME name :: vs_toks vs ++ bases_toks ws ++ ktok LBRACE :: X)
   = CHDef mods0 [key] (Some name) (existsb (fun f => f) vs) (existsb negb vs) (map (resolve (default_access [key])) ws) X.
 Proof.
   intros Hk Hws Hvs.
@@ -133,10 +133,16 @@ Proof.
   assert (Hsl : spec_loop mods0 (Some 0) Y = DOk (mods0, 0, Y)).
   { rewrite EY. cbn [spec_loop]. rewrite H2, H3, H4, HAT. reflexivity. }
   rewrite Hsl.
-  assert (Hce : class_enum [key] mods0 false false false Y = DOk (CEClass s, r)).
+  assert (Hce : class_enum [key] mods0 tmpl false false Y = DOk (CEClass s, r)).
   { rewrite EY. unfold class_enum. rewrite H5, H6. destruct Hk as [E|[E|E]]; rewrite E; reflexivity. }
   rewrite Hce. rewrite <- EY. rewrite Hh. reflexivity.
 Qed.
+
+Lemma class_head_written key name vs ws X :
+  class_key key -> forallb access_ok ws = true -> (match vs with f :: _ => f = true | [] => True end) ->
+  class_stmt_head false false (ktok key :: mkTk T_NAME name :: vs_toks vs ++ bases_toks ws ++ ktok LBRACE :: X)
+  = CHDef mods0 [key] (Some name) (existsb (fun f => f) vs) (existsb negb vs) (map (resolve (default_access [key])) ws) X.
+Proof. exact (class_head_written_g false key name vs ws X). Qed.
 
 Lemma class_fwd_written key name X :
   class_key key ->
